@@ -34,10 +34,16 @@ theorem alookup_mem {κ ν : Type} [DecidableEq κ] {k : κ} {v : ν} :
 
 /-! ### the stable part of a class entry -/
 
-def Entry.stable (e : Entry) : Core × List String := (e.core, e.required)
+/-- the flags instances of the class are serialized with: those of the installed serializer, else the
+    default ones (what the first instance generates) -/
+def Entry.effFlags (e : Entry) : SerFlags := (e.serializer.map (·.flags)).getD .plain
+
+/-- what of a class entry the behaviour of classes depends on (under coherence): the definition-time core,
+    `_required`, and the CONFIGURATION of its serializer -/
+def Entry.stable (e : Entry) : Core × List String × SerFlags := (e.core, e.required, e.effFlags)
 
 /-- stable part of class `d` in world `w` -/
-def lookS (w : World) (d : ClassId) : Option (Core × List String) := (alookup d w.classes).map Entry.stable
+def lookS (w : World) (d : ClassId) : Option (Core × List String × SerFlags) := (alookup d w.classes).map Entry.stable
 
 /-- keys the serializer of a class emits when built from the class's own mapper -/
 def canonKeys (e : Entry) : List String := (fnames e.core.fields).map (mappedKey (mapperOf e false))
@@ -46,7 +52,8 @@ structure Good (cfg : Config) (W : List (String × TypeId)) (w : World) : Prop w
   reg : ∀ p ∈ w.wrappers, ∃ n, p.1 = wkey cfg n p.2 ∧ (n, p.2) ∈ W
   mapper : ∀ p ∈ w.mapperCache, ∃ c e b, alookup c w.classes = some e ∧ p.1 = CKey.id c b ∧ p.2 = mapperOf e b
   simpl : ∀ p ∈ w.simplicityCache, ∃ c e, alookup c w.classes = some e ∧ p.1 = CKey.id c false ∧ p.2 = e.core.simple
-  ser : ∀ c e, alookup c w.classes = some e → ∀ s, e.serializer = some s → s = canonKeys e
+  ser : ∀ c e, alookup c w.classes = some e → ∀ s, e.serializer = some s →
+    s.keys = canonKeys e ∧ (refsCreatable e = true → fastAble e = true)
 
 theorem good_initial (cfg : Config) (W : List (String × TypeId)) : Good cfg W World.initial :=
   ⟨by simp [World.initial], by simp [World.initial], by simp [World.initial],
@@ -115,8 +122,62 @@ theorem trustedOf_eq {cfg : Config} {W} {w : World} (hc : cfg.cachesById = true)
     cases hl'
     simp [hval]
 
-/-- what a class does, as a function of its stable part and the current flags alone -/
-def idealBehaviour (flags : Flags) (core : Core) (required : List String) : Behaviour where
+/-! ### inside the region of the known finding `create_serializer` succeeds iff the class is statically fast-able -/
+
+theorem verify_snd (rec : World → ClassId → World) :
+    ∀ (fs : List FieldSpec) (w : World),
+      (fs.all fun f => match f.kind with | .ref _ => f.fastOk | _ => true) = true →
+      (verifyFields rec w fs).2 = fs.all (·.fastOk)
+  | [], _, _ => rfl
+  | f :: fs, w, h => by
+    simp only [List.all_cons, Bool.and_eq_true] at h
+    unfold verifyFields
+    cases hk : f.kind with
+    | ref b =>
+      have hf : f.fastOk = true := by simpa [hk] using h.1
+      simp only [hf, Bool.true_or, if_true, List.all_cons, Bool.true_and]
+      exact verify_snd rec fs _ h.2
+    | prim t =>
+      simp only [List.all_cons]
+      cases hf : f.fastOk with
+      | true => simp only [if_true, Bool.true_and]; exact verify_snd rec fs _ h.2
+      | false => simp
+    | wrap n t =>
+      simp only [List.all_cons]
+      cases hf : f.fastOk with
+      | true => simp only [if_true, Bool.true_and]; exact verify_snd rec fs _ h.2
+      | false => simp
+    | refs cs =>
+      simp only [List.all_cons]
+      cases hf : f.fastOk with
+      | true => simp only [if_true, Bool.true_and]; exact verify_snd rec fs _ h.2
+      | false => simp
+
+theorem createW_snd {cfg : Config} (n : Nat) {w : World} {c : ClassId} {e : Entry} (fl : SerFlags)
+    (hl : alookup c w.classes = some e) (hr : refsCreatable e = true) :
+    (createW cfg (n + 1) w c fl).2 = fastAble e := by
+  unfold createW
+  simp only [hl]
+  have := verify_snd (fun w b => (createW cfg n w b .plain).1) e.core.fields (fillMapper cfg w c e) hr
+  split
+  · rename_i h; rw [this] at h; exact h.symm
+  · rename_i h; rw [this] at h; simpa [fastAble] using h
+
+theorem creatableNow_eq {cfg : Config} {w : World} {c : ClassId} {e : Entry}
+    (hl : alookup c w.classes = some e) (hr : refsCreatable e = true) :
+    creatableNow cfg w c = fastAble e := createW_snd _ .plain hl hr
+
+/-! ### what a class does, as a function of stable parts and the current flags alone -/
+
+def canonKeysC (core : Core) : List String :=
+  (fnames core.fields).map (mappedKey (core.fields.map fun f => (f.name, f.serKey)))
+
+/-- the serializer instances of a class with stable part `s` are serialized with -/
+def idealFastSer (s : Option (Core × List String × SerFlags)) : Option Ser :=
+  s.bind fun x => if x.1.src.fast then some ⟨canonKeysC x.1, x.2.2⟩ else none
+
+def idealBehaviour (flags : Flags) (core : Core) (required : List String) (eff : SerFlags)
+    (look : ClassId → Option (Core × List String × SerFlags)) : Behaviour where
   fields := core.fields
   sigRequired := core.sigRequired
   required := required
@@ -126,30 +187,82 @@ def idealBehaviour (flags : Flags) (core : Core) (required : List String) : Beha
   failFast := flags.failFast
   serMapper := core.fields.map fun f => (f.name, f.serKey)
   serMapperCamel := core.fields.map fun f => (f.name, f.camelKey)
-  fastKeys := if core.src.fast then
-      some ((fnames core.fields).map (mappedKey (core.fields.map fun f => (f.name, f.serKey)))) else none
+  instantiable := !core.src.fast || core.fields.all (·.fastOk)
+  fastSer := if core.src.fast then some ⟨canonKeysC core, eff⟩ else none
+  refSers := (refFields core.fields).map fun p => (p.1, idealFastSer (look p.2))
   trusted := core.simple
   schemaRequired := schemaRequiredOf (core.fields.map fun f => (f.name, f.serKey))
     (core.addPropsAttr.getD flags.addProps) core.fields required
 
-theorem behaviourOf_eq_ideal {cfg : Config} {W} {w : World} (hc : cfg.cachesById = true) (g : Good cfg W w)
+theorem fastSerOf_eq {cfg : Config} {W} {w : World} (hc : cfg.cachesById = true) (g : Good cfg W w)
     {c : ClassId} {e : Entry} (hl : alookup c w.classes = some e) :
-    behaviourOf cfg w c e = idealBehaviour w.flags e.core e.required := by
+    fastSerOf cfg w c e = if e.core.src.fast then some ⟨canonKeysC e.core, e.effFlags⟩ else none := by
+  unfold fastSerOf
+  cases hf : e.core.src.fast with
+  | false => simp
+  | true =>
+    simp only [if_true, Option.some.injEq]
+    cases hs : e.serializer with
+    | none =>
+      simp [Entry.effFlags, hs, fastKeysNow, serMapper_eq hc g hl false, canonKeysC, mapperOf]
+    | some s =>
+      have := (g.ser c e hl s hs).1
+      cases s with
+      | mk k f =>
+        simp only at this
+        simp [Entry.effFlags, hs, this, canonKeys, canonKeysC, mapperOf]
+
+theorem fastSerAt_eq {cfg : Config} {W} {w : World} (hc : cfg.cachesById = true) (g : Good cfg W w)
+    (b : ClassId) : fastSerAt cfg w b = idealFastSer (lookS w b) := by
+  unfold fastSerAt lookS idealFastSer
+  cases hl : alookup b w.classes with
+  | none => rfl
+  | some eb =>
+    simp only [Option.map_some, Option.bind_some, Entry.stable]
+    exact fastSerOf_eq hc g hl
+
+theorem behaviourOf_eq_ideal {cfg : Config} {W} {w : World} (hc : cfg.cachesById = true) (g : Good cfg W w)
+    {c : ClassId} {e : Entry} (hl : alookup c w.classes = some e)
+    (hwf : e.core.src.fast = true → refsCreatable e = true) :
+    behaviourOf cfg w c e = idealBehaviour w.flags e.core e.required e.effFlags (lookS w) := by
   have h1 := serMapper_eq hc g hl false
   have h1c := serMapper_eq hc g hl true
   have h2 := trustedOf_eq hc g hl
+  have h3 := fastSerOf_eq hc g hl
+  have h4 : (!e.core.src.fast || e.serializer.isSome || creatableNow cfg w c)
+      = (!e.core.src.fast || e.core.fields.all (·.fastOk)) := by
+    cases hf : e.core.src.fast with
+    | false => simp
+    | true =>
+      have hr := hwf hf
+      rw [creatableNow_eq hl hr]
+      cases hs : e.serializer with
+      | none => simp [fastAble]
+      | some s =>
+        have := (g.ser c e hl s hs).2 hr
+        unfold fastAble at this
+        rw [this]
+        simp
   unfold behaviourOf idealBehaviour
-  simp only [h1, h1c, h2, extrasOf, fastKeysNow, mapperOf, Bool.false_eq_true, if_false, if_true]
-  congr 1
-  cases hs : e.serializer with
-  | none => simp
-  | some s =>
-    have := g.ser c e hl s hs
-    simp [this, canonKeys, mapperOf]
+  simp only [h1, h1c, h2, h3, h4, extrasOf, mapperOf, fastSerAt_eq hc g, Bool.false_eq_true, if_false, if_true]
+
+/-- the classes a class's behaviour reads besides itself: the ones its fields refer to -/
+def refsOf (core : Core) : List ClassId := (refFields core.fields).map (·.2)
+
+theorem refSers_congr {look look' : ClassId → Option (Core × List String × SerFlags)} :
+    ∀ (l : List (String × ClassId)), (∀ p ∈ l, look p.2 = look' p.2) →
+      l.map (fun p => (p.1, idealFastSer (look p.2))) = l.map (fun p => (p.1, idealFastSer (look' p.2)))
+  | [], _ => rfl
+  | p :: l, h => by
+    simp only [List.map_cons]
+    rw [h p (by simp), refSers_congr l (fun q hq => h q (by simp [hq]))]
 
 theorem view_eq_of_lookS {cfg : Config} {W} {w w' : World} (hc : cfg.cachesById = true)
     (g : Good cfg W w) (g' : Good cfg W w') (hf : w.flags = w'.flags) {c : ClassId}
-    (hs : lookS w c = lookS w' c) : view cfg w c = view cfg w' c := by
+    (hs : lookS w c = lookS w' c)
+    (hwf : ∀ e, alookup c w.classes = some e → e.core.src.fast = true → refsCreatable e = true)
+    (hrefs : ∀ e, alookup c w.classes = some e → ∀ p ∈ refFields e.core.fields, lookS w p.2 = lookS w' p.2) :
+    view cfg w c = view cfg w' c := by
   unfold view
   unfold lookS at hs
   cases hl : alookup c w.classes with
@@ -165,9 +278,19 @@ theorem view_eq_of_lookS {cfg : Config} {W} {w w' : World} (hc : cfg.cachesById 
     | some e' =>
       rw [hl'] at hs
       simp only [Option.map_some, Option.some.injEq, Entry.stable, Prod.mk.injEq] at hs
-      simp only [Option.map_some, behaviourOf_eq_ideal hc g hl, behaviourOf_eq_ideal hc g' hl', hf, hs.1, hs.2]
+      have hwf' : e'.core.src.fast = true → refsCreatable e' = true := by
+        intro h
+        have := hwf e hl (by rw [hs.1]; exact h)
+        simpa [refsCreatable, hs.1] using this
+      simp only [Option.map_some, behaviourOf_eq_ideal hc g hl (hwf e hl), behaviourOf_eq_ideal hc g' hl' hwf',
+        hf, hs.1, hs.2.1, hs.2.2]
+      have hr : (refFields e'.core.fields).map (fun p => (p.1, idealFastSer (lookS w p.2)))
+          = (refFields e'.core.fields).map (fun p => (p.1, idealFastSer (lookS w' p.2))) :=
+        refSers_congr _ (by rw [← hs.1]; exact hrefs e hl)
+      unfold idealBehaviour
+      rw [hr]
 
-/-! ### operations other than `define` preserve `Good`, every stable part and the flags -/
+/-! ### operations other than `define` and `create_serializer` preserve `Good`, every stable part and the flags -/
 
 /-- `w2` is a coherent world with the same stable parts and flags as `w` -/
 def Pres (cfg : Config) (W : List (String × TypeId)) (w w2 : World) : Prop :=
@@ -191,45 +314,126 @@ theorem has_of_pres {cfg W} {w w2 : World} {c : ClassId} {e : Entry} (h : Pres c
     simp only [Option.map_some, Option.some.injEq, Entry.stable, Prod.mk.injEq] at this
     exact ⟨e2, hl2, this.1.trans hcore⟩
 
+/-- an entry of `w2` has the stable part of the entry of `w` -/
+theorem entry_of_pres {cfg W} {w w2 : World} {c : ClassId} {e : Entry} (h : Pres cfg W w w2)
+    (hl : alookup c w.classes = some e) : ∃ e2, alookup c w2.classes = some e2 ∧ e2.stable = e.stable := by
+  have := h.2.1 c
+  unfold lookS at this
+  rw [hl] at this
+  cases hl2 : alookup c w2.classes with
+  | none => rw [hl2] at this; simp at this
+  | some e2 =>
+    rw [hl2] at this
+    simp only [Option.map_some, Option.some.injEq] at this
+    exact ⟨e2, rfl, this⟩
+
+theorem eachClass_pres {cfg W} (rec : World → ClassId → World)
+    (hrec : ∀ w b, Good cfg W w → Pres cfg W w (rec w b)) :
+    ∀ (bs : List ClassId) (w : World), Good cfg W w → Pres cfg W w (eachClass rec w bs)
+  | [], _, g => pres_refl g
+  | b :: bs, w, g => by
+    simp only [eachClass]
+    exact pres_trans (hrec w b g) (eachClass_pres rec hrec bs _ (hrec w b g).1)
+
+theorem eachClass_classes (rec : World → ClassId → World) (hrec : ∀ w b, (rec w b).classes = w.classes) :
+    ∀ (bs : List ClassId) (w : World), (eachClass rec w bs).classes = w.classes
+  | [], _ => rfl
+  | b :: bs, w => by
+    simp only [eachClass]
+    rw [eachClass_classes rec hrec bs, hrec]
+
+theorem pres_mapperInsert {cfg W} {w : World} (hc : cfg.cachesById = true) (g : Good cfg W w)
+    {c : ClassId} {e : Entry} (hh : Has w c e) (b : Bool) :
+    Pres cfg W w { w with mapperCache := (mkey cfg c e b, mapperOf e b) :: w.mapperCache } := by
+  refine ⟨⟨g.reg, ?_, g.simpl, g.ser⟩, fun _ => rfl, rfl⟩
+  intro p hp
+  simp only [List.mem_cons] at hp
+  rcases hp with rfl | hp
+  · obtain ⟨e0, hl, hcore⟩ := hh
+    exact ⟨c, e0, b, hl, mkey_id hc c e b, (mapperOf_core hcore b).symm⟩
+  · exact g.mapper p hp
+
+theorem pres_fillMapperDeep {cfg W} (hc : cfg.cachesById = true) :
+    ∀ (n : Nat) (w : World) (c : ClassId) (b : Bool), Good cfg W w → Pres cfg W w (fillMapperDeep cfg n w c b)
+  | 0, _, _, _, g => pres_refl g
+  | n + 1, w, c, b, g => by
+    unfold fillMapperDeep
+    cases hl : alookup c w.classes with
+    | none => exact pres_refl g
+    | some e =>
+      simp only
+      cases hk : alookup (mkey cfg c e b) w.mapperCache with
+      | some _ => exact pres_refl g
+      | none =>
+        simp only
+        have p1 := eachClass_pres (cfg := cfg) (W := W) (fun w b => fillMapperDeep cfg n w b false)
+          (fun w b g => pres_fillMapperDeep hc n w b false g) (fieldRefs e.core.fields) w g
+        exact pres_trans p1 (pres_mapperInsert hc p1.1 (has_of_pres p1 (has_self hl)) b)
+
 theorem pres_fillMapper {cfg W} {w : World} (hc : cfg.cachesById = true) (g : Good cfg W w)
     {c : ClassId} {e : Entry} (hh : Has w c e) (b : Bool := false) : Pres cfg W w (fillMapper cfg w c e b) := by
   unfold fillMapper
   cases hk : alookup (mkey cfg c e b) w.mapperCache with
   | some _ => exact pres_refl g
   | none =>
-    refine ⟨⟨g.reg, ?_, g.simpl, g.ser⟩, fun _ => rfl, rfl⟩
-    intro p hp
-    simp only [List.mem_cons] at hp
-    rcases hp with rfl | hp
-    · obtain ⟨e0, hl, hcore⟩ := hh
-      exact ⟨c, e0, b, hl, mkey_id hc c e b, (mapperOf_core hcore b).symm⟩
-    · exact g.mapper p hp
+    simp only
+    have p1 := eachClass_pres (cfg := cfg) (W := W) (fun w' b => fillMapperDeep cfg w'.classes.length w' b false)
+      (fun w' b g => pres_fillMapperDeep hc _ w' b false g) (fieldRefs e.core.fields) w g
+    exact pres_trans p1 (pres_mapperInsert hc p1.1 (has_of_pres p1 hh) b)
+
+theorem fillSimplicityDeep_classes (cfg : Config) :
+    ∀ (n : Nat) (w : World) (c : ClassId), (fillSimplicityDeep cfg n w c).classes = w.classes
+  | 0, _, _ => rfl
+  | n + 1, w, c => by
+    unfold fillSimplicityDeep
+    cases alookup c w.classes with
+    | none => rfl
+    | some e =>
+      simp only
+      cases alookup (skey cfg c e) w.simplicityCache with
+      | some _ => rfl
+      | none =>
+        simp only
+        exact eachClass_classes _ (fun w b => fillSimplicityDeep_classes cfg n w b) _ w
+
+theorem pres_fillSimplicityDeep {cfg W} (hc : cfg.cachesById = true) :
+    ∀ (n : Nat) (w : World) (c : ClassId), Good cfg W w → Pres cfg W w (fillSimplicityDeep cfg n w c)
+  | 0, _, _, g => pres_refl g
+  | n + 1, w, c, g => by
+    unfold fillSimplicityDeep
+    cases hl : alookup c w.classes with
+    | none => exact pres_refl g
+    | some e =>
+      simp only
+      cases hk : alookup (skey cfg c e) w.simplicityCache with
+      | some _ => exact pres_refl g
+      | none =>
+        simp only
+        have p1 := eachClass_pres (cfg := cfg) (W := W) (fun w b => fillSimplicityDeep cfg n w b)
+          (fun w b g => pres_fillSimplicityDeep hc n w b g) ((refFields (simplePrefix e.core.fields)).map (·.2)) w g
+        refine pres_trans p1 ⟨⟨p1.1.reg, p1.1.mapper, ?_, p1.1.ser⟩, fun _ => rfl, rfl⟩
+        intro p hp
+        simp only [List.mem_cons] at hp
+        rcases hp with rfl | hp
+        · obtain ⟨e0, hl0, hcore⟩ := has_of_pres p1 (has_self hl)
+          exact ⟨c, e0, hl0, skey_id hc c e, by rw [hcore]⟩
+        · exact p1.1.simpl p hp
 
 theorem pres_fillSimplicity {cfg W} {w : World} (hc : cfg.cachesById = true) (g : Good cfg W w)
-    {c : ClassId} {e : Entry} (hh : Has w c e) : Pres cfg W w (fillSimplicity cfg w c e) := by
-  unfold fillSimplicity
-  cases hk : alookup (skey cfg c e) w.simplicityCache with
-  | some _ => exact pres_refl g
-  | none =>
-    refine ⟨⟨g.reg, g.mapper, ?_, g.ser⟩, fun _ => rfl, rfl⟩
-    intro p hp
-    simp only [List.mem_cons] at hp
-    rcases hp with rfl | hp
-    · obtain ⟨e0, hl, hcore⟩ := hh
-      exact ⟨c, e0, hl, skey_id hc c e, by rw [hcore]⟩
-    · exact g.simpl p hp
+    (c : ClassId) (e : Entry) : Pres cfg W w (fillSimplicity cfg w c e) :=
+  pres_fillSimplicityDeep hc _ w c g
 
 theorem canonKeys_core {e e' : Entry} (h : e'.core = e.core) : canonKeys e' = canonKeys e := by
   unfold canonKeys mapperOf; rw [h]
 
-/-- overwriting the entry of `c` by one with the same stable part and a coherent serializer -/
-theorem pres_setEntry {cfg W} {w : World} (g : Good cfg W w) {c : ClassId} {e e' : Entry}
-    (hl : alookup c w.classes = some e) (hst : e'.stable = e.stable)
-    (hser : ∀ s, e'.serializer = some s → s = canonKeys e') : Pres cfg W w (setEntry w c e') := by
-  have hcore : e'.core = e.core := by
-    have := congrArg Prod.fst hst
-    simpa [Entry.stable] using this
-  refine ⟨⟨g.reg, ?_, ?_, ?_⟩, ?_, rfl⟩
+/-- overwriting the entry of `c` by one with the same core and a coherent serializer: coherence is kept and
+    every OTHER class keeps its stable part -/
+theorem good_setEntry {cfg W} {w : World} (g : Good cfg W w) {c : ClassId} {e e' : Entry}
+    (hl : alookup c w.classes = some e) (hcore : e'.core = e.core)
+    (hser : ∀ s, e'.serializer = some s → s.keys = canonKeys e' ∧ (refsCreatable e' = true → fastAble e' = true)) :
+    Good cfg W (setEntry w c e') ∧ (∀ d, c ≠ d → lookS (setEntry w c e') d = lookS w d)
+      ∧ lookS (setEntry w c e') c = some e'.stable := by
+  refine ⟨⟨g.reg, ?_, ?_, ?_⟩, ?_, ?_⟩
   · intro p hp
     obtain ⟨c0, e0, b0, hl0, hk, hv⟩ := g.mapper p hp
     by_cases h : c = c0
@@ -253,53 +457,173 @@ theorem pres_setEntry {cfg W} {w : World} (g : Good cfg W w) {c : ClassId} {e e'
     · have : alookup c0 (setEntry w c e').classes = alookup c0 w.classes := alookup_cons_ne _ _ h
       rw [this] at hl0
       exact g.ser c0 e0 hl0 s hs
-  · intro d
+  · intro d h
     unfold lookS
-    by_cases h : c = d
-    · subst h
-      have : alookup c (setEntry w c e').classes = some e' := alookup_cons_eq _ _ _
-      rw [this, hl]
-      simp [hst]
-    · have : alookup d (setEntry w c e').classes = alookup d w.classes := alookup_cons_ne _ _ h
-      rw [this]
-
-theorem pres_installW {cfg W} {w : World} (hc : cfg.cachesById = true) (g : Good cfg W w)
-    {c : ClassId} {e : Entry} (hh : Has w c e) : Pres cfg W w (installW cfg w c e) := by
-  have p1 := pres_fillMapper hc g hh
-  unfold installW
-  simp only [installTarget_self hc]
-  by_cases hf : fastAble e = true
-  · simp only [hf, if_true]
-    have hh1 := has_of_pres p1 hh
-    obtain ⟨e1, hl1, hcore1⟩ := hh1
-    simp only [hl1]
-    refine pres_trans p1 (pres_setEntry p1.1 hl1 rfl ?_)
-    intro s hs
-    simp only [Option.some.injEq] at hs
-    subst hs
-    have hm := serMapper_eq' hc p1.1 (⟨e1, hl1, hcore1⟩ : Has (fillMapper cfg w c e) c e) false
-    unfold fastKeysNow canonKeys
-    simp only [hm]
-    have : mapperOf { e1 with serializer := some ((fnames e.core.fields).map (mappedKey (mapperOf e false))), createdFast := true } false
-        = mapperOf e false := mapperOf_core hcore1 false
+    have : alookup d (setEntry w c e').classes = alookup d w.classes := alookup_cons_ne _ _ h
     rw [this]
-    simp [hcore1]
-  · simp only [hf]
-    exact p1
+  · unfold lookS
+    have : alookup c (setEntry w c e').classes = some e' := alookup_cons_eq _ _ _
+    rw [this]; rfl
+
+theorem resolveSer_none_own {w : World} {e : Entry} (h : (resolveSer w e).isNone = true) : e.serializer = none := by
+  unfold resolveSer at h
+  cases hs : e.serializer with
+  | none => rfl
+  | some s => simp [hs] at h
+
+theorem needsSer_own {w : World} {b : ClassId} (h : needsSer w b = true) :
+    ∀ e, alookup b w.classes = some e → e.serializer = none := by
+  intro e hl
+  unfold needsSer at h
+  simp only [hl, Bool.and_eq_true] at h
+  exact resolveSer_none_own h.2
+
+theorem verify_pres {cfg W} (rec : World → ClassId → World)
+    (hrec : ∀ w b, Good cfg W w → needsSer w b = true → Pres cfg W w (rec w b)) :
+    ∀ (fs : List FieldSpec) (w : World), Good cfg W w → Pres cfg W w (verifyFields rec w fs).1
+  | [], _, g => pres_refl g
+  | f :: fs, w, g => by
+    unfold verifyFields
+    cases hk : f.kind with
+    | ref b =>
+      simp only
+      split
+      · cases hn : needsSer w b with
+        | true =>
+          simp only [if_true]
+          exact pres_trans (hrec w b g hn) (verify_pres rec hrec fs _ (hrec w b g hn).1)
+        | false =>
+          simp only [Bool.false_eq_true, if_false]
+          exact verify_pres rec hrec fs w g
+      · exact pres_refl g
+    | prim t =>
+      simp only
+      split
+      · exact verify_pres rec hrec fs w g
+      · exact pres_refl g
+    | wrap n t =>
+      simp only
+      split
+      · exact verify_pres rec hrec fs w g
+      · exact pres_refl g
+    | refs cs =>
+      simp only
+      split
+      · exact verify_pres rec hrec fs w g
+      · exact pres_refl g
+
+/-- what `create_serializer(c, fl)` leaves: a coherent world with the same flags, every OTHER class's stable
+    part untouched, and `c` with the same core and `_required` and — when it got through — the flags `fl` -/
+structure Created (cfg : Config) (W : List (String × TypeId)) (w w2 : World) (c : ClassId) (fl : SerFlags)
+    (ok : Bool) : Prop where
+  good : Good cfg W w2
+  flags : w2.flags = w.flags
+  other : ∀ d, c ≠ d → lookS w2 d = lookS w d
+  self : lookS w2 c = (lookS w c).map fun s => (s.1, s.2.1, if ok then fl else s.2.2)
+
+theorem created_pres {cfg W} {w w2 : World} {c : ClassId} {fl : SerFlags} {ok : Bool}
+    (h : Created cfg W w w2 c fl ok) (hfl : ∀ e, alookup c w.classes = some e → e.effFlags = fl) :
+    Pres cfg W w w2 := by
+  refine ⟨h.good, ?_, h.flags⟩
+  intro d
+  by_cases hd : c = d
+  · subst hd
+    rw [h.self]
+    unfold lookS
+    cases hl : alookup c w.classes with
+    | none => rfl
+    | some e =>
+      simp only [Option.map_some, Entry.stable, Option.some.injEq, Prod.mk.injEq, true_and]
+      split
+      · exact (hfl e hl).symm
+      · rfl
+  · exact h.other d hd
+
+theorem created_noop {cfg W} {w : World} (g : Good cfg W w) (c : ClassId) (fl : SerFlags) :
+    Created cfg W w w c fl false := by
+  refine ⟨g, rfl, fun _ _ => rfl, ?_⟩
+  cases h : lookS w c <;> simp
+
+theorem createW_spec {cfg W} (hc : cfg.cachesById = true) :
+    ∀ (n : Nat) (w : World) (c : ClassId) (fl : SerFlags), Good cfg W w →
+      Created cfg W w (createW cfg n w c fl).1 c fl (createW cfg n w c fl).2
+  | 0, w, c, fl, g => by
+    unfold createW
+    exact created_noop g c fl
+  | n + 1, w, c, fl, g => by
+    unfold createW
+    cases hl : alookup c w.classes with
+    | none => exact created_noop g c fl
+    | some e =>
+      simp only
+      have p1 := pres_fillMapper hc g (has_self hl) false
+      have hrec : ∀ w b, Good cfg W w → needsSer w b = true → Pres cfg W w (createW cfg n w b .plain).1 := by
+        intro w b g hn
+        exact created_pres (createW_spec hc n w b .plain g)
+          (fun e hl => by simp [Entry.effFlags, needsSer_own hn e hl])
+      have p2 := pres_trans p1 (verify_pres (fun w b => (createW cfg n w b .plain).1) hrec e.core.fields _ p1.1)
+      generalize hv : verifyFields (fun w b => (createW cfg n w b .plain).1) (fillMapper cfg w c e) e.core.fields = v at p2
+      cases hok : v.2 with
+      | false =>
+        simp only [Bool.false_eq_true, if_false]
+        refine ⟨p2.1, p2.2.2, fun d _ => p2.2.1 d, ?_⟩
+        rw [p2.2.1 c]
+        cases h : lookS w c <;> simp
+      | true =>
+        simp only [if_true, installTarget_self hc]
+        obtain ⟨e1, hl1, hst1⟩ := entry_of_pres p2 hl
+        have hcore1 : e1.core = e.core := by
+          have := congrArg Prod.fst hst1
+          simpa [Entry.stable] using this
+        have hreq : e1.required = e.required := by
+          have := congrArg (fun x => x.2.1) hst1
+          simpa [Entry.stable] using this
+        unfold setSer
+        simp only [hl1]
+        have hm := serMapper_eq' hc p2.1 (⟨e1, hl1, hcore1⟩ : Has v.1 c e) false
+        obtain ⟨g2, ho, hs⟩ := good_setEntry
+          (e' := { e1 with serializer := some ⟨fastKeysNow cfg v.1 c e, fl⟩, createdFast := true })
+          p2.1 hl1 rfl (by
+            intro s hs
+            simp only [Option.some.injEq] at hs
+            subst hs
+            refine ⟨?_, ?_⟩
+            · simp only [fastKeysNow, hm, canonKeys]
+              have : mapperOf { e1 with serializer := some ⟨(fnames e.core.fields).map (mappedKey (mapperOf e false)), fl⟩, createdFast := true } false
+                  = mapperOf e false := mapperOf_core hcore1 false
+              rw [this]
+              simp [hcore1]
+            · intro hr
+              have hr' : refsCreatable e = true := by simpa [refsCreatable, hcore1] using hr
+              have h1 := verify_snd (fun w b => (createW cfg n w b .plain).1) e.core.fields (fillMapper cfg w c e) hr'
+              rw [hv, hok] at h1
+              simpa [fastAble, hcore1] using h1.symm)
+        refine ⟨g2, p2.2.2, fun d hd => (ho d hd).trans (p2.2.1 d), ?_⟩
+        rw [hs]
+        unfold lookS
+        rw [hl]
+        simp [Entry.stable, Entry.effFlags, hcore1, hreq]
+
+theorem pres_installW_plain {cfg W} {w : World} (hc : cfg.cachesById = true) (g : Good cfg W w)
+    {c : ClassId} (hown : ∀ e, alookup c w.classes = some e → e.serializer = none) :
+    Pres cfg W w (installW cfg w c .plain) :=
+  created_pres (createW_spec hc _ w c .plain g) (fun e hl => by simp [Entry.effFlags, hown e hl])
 
 theorem pres_autoInstallW {cfg W} {w : World} (hc : cfg.cachesById = true) (g : Good cfg W w)
-    {c : ClassId} {e : Entry} (hh : Has w c e) : Pres cfg W w (autoInstallW cfg w c e) := by
+    {c : ClassId} {e : Entry} (hl : alookup c w.classes = some e) : Pres cfg W w (autoInstallW cfg w c e) := by
   unfold autoInstallW
   split
-  · exact pres_installW hc g hh
+  · rename_i h
+    simp only [Bool.and_eq_true, Option.isNone_iff_eq_none] at h
+    exact pres_installW_plain hc g (fun e' hl' => by rw [hl] at hl'; cases hl'; exact h.2)
   · exact pres_refl g
 
 theorem pres_constructW {cfg W} {w : World} (hc : cfg.cachesById = true) (g : Good cfg W w)
-    {c : ClassId} {e : Entry} (hh : Has w c e) (kw : List (String × Arg)) :
+    {c : ClassId} {e : Entry} (hl : alookup c w.classes = some e) (kw : List (String × Arg)) :
     Pres cfg W w (constructW cfg w c e kw) := by
   unfold constructW
   split
-  · exact pres_autoInstallW hc g hh
+  · exact pres_autoInstallW hc g hl
   · exact pres_refl g
 
 theorem pres_schemaW {cfg W} {w : World} (hc : cfg.cachesById = true) (g : Good cfg W w)
@@ -332,39 +656,59 @@ theorem withClass_fst {P : World → Prop} {w : World} {c : ClassId} {k : Entry 
   | none => exact h0
   | some e => exact h1 e hl
 
-/-- every operation other than a definition or a toggle of a global default, when quiet, leaves every
-    class's stable part, the flags and coherence as they were -/
+/-- an operation that neither defines a class nor toggles a global default nor configures a serializer -/
+def plainUse : WorldOp → Bool
+  | .define _ _ => false
+  | .setDefault _ _ => false
+  | .createSerializer _ _ => false
+  | _ => true
+
+/-- every operation other than a definition, a toggle of a global default or an explicit `create_serializer`,
+    when quiet, leaves every class's stable part, the flags and coherence as they were -/
 theorem pres_step_use {cfg W} {w : World} (hc : cfg.cachesById = true) (g : Good cfg W w) (op : WorldOp)
-    (hk : keepOp (fun _ => true) op = false) (hq : quietStep cfg w op = true) :
+    (hk : plainUse op = true) (hq : quietStep cfg w op = true) :
     Pres cfg W w (stepW cfg w op).1 := by
   cases op with
-  | define c src => simp [keepOp] at hk
-  | setDefault f b => simp [keepOp] at hk
+  | define c src => simp [plainUse] at hk
+  | setDefault f b => simp [plainUse] at hk
+  | createSerializer c fl => simp [plainUse] at hk
   | construct c kw =>
     simp only [stepW]
-    exact withClass_fst (pres_refl g) fun e hl => pres_constructW hc g (has_self hl) kw
+    exact withClass_fst (pres_refl g) fun e hl => pres_constructW hc g hl kw
   | deserialize c kw =>
     simp only [stepW]
-    exact withClass_fst (pres_refl g) fun e hl => pres_constructW hc g (has_self hl) kw
+    exact withClass_fst (pres_refl g) fun e hl => pres_constructW hc g hl kw
   | trustedDeserialize c kw =>
     simp only [stepW]
     refine withClass_fst (pres_refl g) fun e hl => ?_
-    have p1 := pres_fillSimplicity hc g (has_self hl)
-    exact pres_trans p1 (pres_constructW hc p1.1 (has_of_pres p1 (has_self hl)) kw)
+    have p1 := pres_fillSimplicity hc g c e
+    have hl1 : alookup c (fillSimplicity cfg w c e).classes = some e := by
+      unfold fillSimplicity
+      rw [fillSimplicityDeep_classes]; exact hl
+    exact pres_trans p1 (pres_constructW hc p1.1 hl1 kw)
   | serialize c kw camel =>
     simp only [stepW]
     refine withClass_fst (pres_refl g) fun e hl => ?_
-    have p1 := pres_constructW hc g (has_self hl) kw
+    have p1 := pres_constructW hc g hl kw
     simp only
     split
     · exact pres_trans p1 (pres_fillMapper hc p1.1 (has_of_pres p1 (has_self hl)) camel)
     · exact p1
-  | createSerializer c =>
-    simp only [stepW]
-    exact withClass_fst (pres_refl g) fun e hl => pres_installW hc g (has_self hl)
   | toSchema c =>
     simp only [stepW]
     exact withClass_fst (pres_refl g) fun e hl => pres_schemaW hc g hl (quiet_toSchema hl hq)
+
+/-- an explicit `create_serializer(c, fl)` step -/
+theorem created_step {cfg W} {w : World} (hc : cfg.cachesById = true) (g : Good cfg W w) (c : ClassId)
+    (fl : SerFlags) :
+    Created cfg W w (stepW cfg w (.createSerializer c fl)).1 c fl
+      ((alookup c w.classes).isSome && (createW cfg (w.classes.length + 1) w c fl).2) := by
+  simp only [stepW, withClass]
+  cases hl : alookup c w.classes with
+  | none => exact created_noop g c fl
+  | some e =>
+    simp only [Option.isSome_some, Bool.true_and]
+    exact createW_spec hc _ w c fl g
 
 /-! ### implicit wrappers resolve to the declared class (identity keys, or no name clash) -/
 
@@ -611,14 +955,14 @@ theorem good_define {cfg : Config} {W} (hW : cfg.wrapperByName = true → NoClas
 
 theorem stable_eq {e e' : Entry} (h : e.stable = e'.stable) : e.core = e'.core ∧ e.required = e'.required := by
   unfold Entry.stable at h
-  exact ⟨congrArg Prod.fst h, congrArg Prod.snd h⟩
+  exact ⟨congrArg Prod.fst h, congrArg (fun x => x.2.1) h⟩
 
 theorem elab_stable_congr {cfg : Config} {w w' : World} {src : ClassSrc} {pe : Option PInfo}
     (hown : ((resolveFields cfg w.wrappers src.fields).2).map (resolveSimple w.classes)
           = ((resolveFields cfg w'.wrappers src.fields).2).map (resolveSimple w'.classes))
     (hf : w.flags = w'.flags) :
     (elabClass cfg w src pe).stable = (elabClass cfg w' src pe).stable := by
-  simp only [elabClass, Entry.stable, hown, hf]
+  simp only [elabClass, Entry.stable, Entry.effFlags, hown, hf]
 
 theorem lookS_cases {w w' : World} {d : ClassId} (h : lookS w d = lookS w' d) :
     (alookup d w.classes = none ∧ alookup d w'.classes = none) ∨
@@ -641,6 +985,21 @@ theorem fieldSimple_congr {w w' : World} {T : ClassId → Bool} (hst : ∀ d, T 
     (f : FieldSpec) (hf : ∀ r ∈ kindRefs f.kind, T r = true) :
     fieldSimple w.classes f = fieldSimple w'.classes f := by
   unfold fieldSimple
+  cases hk : f.kind with
+  | prim _ => rfl
+  | wrap _ _ => rfl
+  | refs _ => rfl
+  | ref r =>
+    simp only
+    rcases lookS_cases (hst r (hf r (by simp [hk, kindRefs]))) with ⟨h1, h2⟩ | ⟨e, e', h1, h2, h3⟩
+    · rw [h1, h2]
+    · rw [h1, h2]
+      simp only [(stable_eq h3).1]
+
+theorem fieldFast_congr {w w' : World} {T : ClassId → Bool} (hst : ∀ d, T d = true → lookS w d = lookS w' d)
+    (f : FieldSpec) (hf : ∀ r ∈ kindRefs f.kind, T r = true) :
+    fieldFast w.classes f = fieldFast w'.classes f := by
+  unfold fieldFast
   cases hk : f.kind with
   | prim _ => rfl
   | wrap _ _ => rfl
@@ -708,7 +1067,87 @@ theorem own_congr {cfg : Config} {W} (hW : cfg.wrapperByName = true → NoClashW
   apply List.map_congr_left
   intro f hf
   unfold resolveSimple
-  rw [fieldSimple_congr hst f (hrefs f hf)]
+  rw [fieldSimple_congr hst f (hrefs f hf), fieldFast_congr hst f (hrefs f hf)]
+
+/-! ### the classes a class's fields refer to are among the classes its definition reads -/
+
+/-- every class the fields of `e` refer to is in `T` -/
+def RefsIn (T : ClassId → Bool) (fs : List FieldSpec) : Prop := ∀ f ∈ fs, ∀ r ∈ kindRefs f.kind, T r = true
+
+theorem refsIn_append {T : ClassId → Bool} {a b : List FieldSpec} (ha : RefsIn T a) (hb : RefsIn T b) :
+    RefsIn T (a ++ b) := by
+  intro f hf
+  rcases List.mem_append.mp hf with h | h
+  · exact ha f h
+  · exact hb f h
+
+theorem refsIn_filter {T : ClassId → Bool} {a : List FieldSpec} (p : FieldSpec → Bool) (ha : RefsIn T a) :
+    RefsIn T (a.filter p) := fun f hf => ha f (List.mem_filter.mp hf).1
+
+theorem refsIn_unmapped {T : ClassId → Bool} {a : List FieldSpec} (ha : RefsIn T a) : RefsIn T (unmapped a) := by
+  intro f hf
+  unfold unmapped at hf
+  obtain ⟨g, hg, rfl⟩ := List.mem_map.mp hf
+  exact ha g hg
+
+theorem resolveField_kindRefs (cfg : Config) (reg : List (WKey × TypeId)) (f : FieldSpec) :
+    kindRefs (resolveField cfg reg f).2.kind = kindRefs f.kind := by
+  unfold resolveField
+  cases hk : f.kind with
+  | prim t => simp [hk]
+  | ref c => simp [hk]
+  | refs cs => simp [hk]
+  | wrap n t =>
+    simp only
+    cases alookup (wkey cfg n t) reg with
+    | none => simp [hk]
+    | some t' => simp [kindRefs]
+
+theorem refsIn_resolveFields {T : ClassId → Bool} (cfg : Config) :
+    ∀ (fs : List FieldSpec) (reg : List (WKey × TypeId)), RefsIn T fs → RefsIn T (resolveFields cfg reg fs).2
+  | [], _, _ => by intro f hf; simp [resolveFields] at hf
+  | f :: fs, reg, h => by
+    intro g hg
+    simp only [resolveFields, List.mem_cons] at hg
+    rcases hg with rfl | hg
+    · rw [resolveField_kindRefs]
+      exact h f (by simp)
+    · exact refsIn_resolveFields cfg fs _ (fun x hx => h x (by simp [hx])) g hg
+
+theorem refsIn_own {T : ClassId → Bool} (cfg : Config) (w : World) (src : ClassSrc) (h : RefsIn T src.fields) :
+    RefsIn T (((resolveFields cfg w.wrappers src.fields).2).map (resolveSimple w.classes)) := by
+  intro f hf
+  obtain ⟨g, hg, rfl⟩ := List.mem_map.mp hf
+  exact refsIn_resolveFields cfg src.fields _ h g hg
+
+theorem refsIn_inheritInfo {T : ClassId → Bool} (pe : Option PInfo) (own : List FieldSpec) (ho : RefsIn T own)
+    (hp : ∀ p pc pr, pe = some (p, pc, pr) → RefsIn T pc.fields) : RefsIn T (inheritInfo pe own).1 := by
+  unfold inheritInfo
+  cases pe with
+  | none => exact ho
+  | some x =>
+    obtain ⟨p, pc, pr⟩ := x
+    have hpc := hp p pc pr rfl
+    match p with
+    | .inherit c => exact refsIn_append (refsIn_filter _ hpc) ho
+    | .omit c ns => exact refsIn_append (refsIn_unmapped (refsIn_filter _ hpc)) ho
+    | .pick c ns => exact refsIn_append (refsIn_unmapped (refsIn_filter _ hpc)) ho
+    | .partialOf c => exact refsIn_append (refsIn_unmapped hpc) ho
+    | .allRequired c => exact refsIn_append (refsIn_unmapped hpc) ho
+
+theorem lookupParent_some {classes : List (ClassId × Entry)} {parent : Option Parent} {p : Parent} {pc : Core}
+    {pr : List String} (h : lookupParent classes parent = some (some (p, pc, pr))) :
+    ∃ e, alookup p.cid classes = some e ∧ e.core = pc ∧ parent = some p := by
+  cases parent with
+  | none => simp [lookupParent] at h
+  | some q =>
+    simp only [lookupParent] at h
+    cases hl : alookup q.cid classes with
+    | none => simp [hl] at h
+    | some e =>
+      simp only [hl, Option.some.injEq, Prod.mk.injEq] at h
+      obtain ⟨rfl, rfl, _⟩ := h
+      exact ⟨e, hl, rfl, rfl⟩
 
 /-! ### the simulation -/
 
@@ -717,10 +1156,16 @@ structure Sim (cfg : Config) (T : ClassId → Bool) (W : List (String × TypeId)
   stab : ∀ d, T d = true → lookS w d = lookS w' d
   good : Good cfg W w
   good' : Good cfg W w'
+  /-- inside the region of the known finding: a FastSerializable class of `T` refers only to classes whose
+      serializer can be generated -/
+  wf : ∀ d e, T d = true → alookup d w.classes = some e → e.core.src.fast = true → refsCreatable e = true
+  /-- the classes the fields of a class of `T` refer to are in `T` -/
+  tcl : ∀ d e, T d = true → alookup d w.classes = some e → RefsIn T e.core.fields
 
 theorem sim_initial (cfg : Config) (T : ClassId → Bool) (W : List (String × TypeId)) :
     Sim cfg T W World.initial World.initial :=
-  ⟨rfl, fun _ _ => rfl, good_initial cfg W, good_initial cfg W⟩
+  ⟨rfl, fun _ _ => rfl, good_initial cfg W, good_initial cfg W,
+   by intro d e _ h; simp [World.initial, alookup] at h, by intro d e _ h; simp [World.initial, alookup] at h⟩
 
 theorem defEntry_congr {cfg : Config} {W} (hW : cfg.wrapperByName = true → NoClashW W) {T : ClassId → Bool}
     {w w' : World} (s : Sim cfg T W w w') (c : ClassId) (src : ClassSrc) (hT : T c = true)
@@ -744,11 +1189,64 @@ theorem defEntry_congr {cfg : Config} {W} (hW : cfg.wrapperByName = true → NoC
     · simp [hr]
   · simp only [h1, h2, Option.map_none]
 
+theorem alookup_define_other (cfg : Config) (w : World) (c : ClassId) (src : ClassSrc) {d : ClassId}
+    (h : c ≠ d) : alookup d (defineW cfg w c src).1.classes = alookup d w.classes := by
+  rw [defineW_eq]
+  cases defEntry cfg w c src with
+  | none => simp only [failWorld_classes]
+  | some e =>
+    unfold defWorld bodyW
+    simp only
+    rw [alookup_cons_ne _ _ h]
+
+theorem alookup_define_self (cfg : Config) (w : World) (c : ClassId) (src : ClassSrc) :
+    alookup c (defineW cfg w c src).1.classes = match defEntry cfg w c src with
+      | none => alookup c w.classes
+      | some e => some e := by
+  rw [defineW_eq]
+  cases defEntry cfg w c src with
+  | none => simp only [failWorld_classes]
+  | some e =>
+    unfold defWorld bodyW
+    simp only
+    rw [alookup_cons_eq]
+
+/-- the fields of a freshly defined class of `T` refer only to classes of `T` -/
+theorem defEntry_refsIn {cfg : Config} {T : ClassId → Bool} {w : World} {c : ClassId} {src : ClassSrc} {e : Entry}
+    (h : defEntry cfg w c src = some e) (hd : src.deps.all T = true)
+    (htcl : ∀ d e, T d = true → alookup d w.classes = some e → RefsIn T e.core.fields) :
+    RefsIn T e.core.fields := by
+  unfold defEntry at h
+  cases hl : alookup c w.classes with
+  | some _ => simp [hl] at h
+  | none =>
+    simp only [hl] at h
+    by_cases hr : refsDefined w.classes src.fields = true
+    · simp only [hr, Bool.not_true, Bool.false_eq_true, if_false] at h
+      cases hp : lookupParent w.classes src.parent with
+      | none => simp [hp] at h
+      | some pe =>
+        simp only [hp] at h
+        by_cases hb : baseSigClash w.flags src pe = true
+        · simp [hb] at h
+        · simp only [hb, Bool.false_eq_true, if_false, Option.some.injEq] at h
+          subst h
+          simp only [elabClass]
+          apply refsIn_inheritInfo
+          · exact refsIn_own cfg w src (deps_refs hd)
+          · intro p pc pr hpe
+            subst hpe
+            obtain ⟨ep, hlp, hcore, hpar⟩ := lookupParent_some hp
+            rw [← hcore]
+            exact htcl p.cid ep (deps_parent hd p hpar) hlp
+    · simp [hr] at h
+
 theorem sim_define_both {cfg : Config} {W} (hW : cfg.wrapperByName = true → NoClashW W) {T : ClassId → Bool}
     {w w' : World} (s : Sim cfg T W w w') (c : ClassId) (src : ClassSrc) (hT : T c = true)
-    (hd : src.deps.all T = true) (hsub : ∀ q ∈ wrapsOfFields src.fields, q ∈ W) :
+    (hd : src.deps.all T = true) (hsub : ∀ q ∈ wrapsOfFields src.fields, q ∈ W)
+    (hq : quietStep cfg w (.define c src) = true) :
     Sim cfg T W (defineW cfg w c src).1 (defineW cfg w' c src).1 := by
-  refine ⟨?_, ?_, good_define hW s.good c src hsub, good_define hW s.good' c src hsub⟩
+  refine ⟨?_, ?_, good_define hW s.good c src hsub, good_define hW s.good' c src hsub, ?_, ?_⟩
   · rw [defineW_flags, defineW_flags]; exact s.flags
   · intro d hTd
     by_cases h : c = d
@@ -768,22 +1266,76 @@ theorem sim_define_both {cfg : Config} {W} (hW : cfg.wrapperByName = true → No
           simpa using this
     · rw [lookS_define_other _ _ _ _ h, lookS_define_other _ _ _ _ h]
       exact s.stab d hTd
+  · intro d e hTd hl hf
+    by_cases h : c = d
+    · subst h
+      unfold quietStep at hq
+      simp only [hl, hf, Bool.not_true, Bool.false_or] at hq
+      exact hq
+    · rw [alookup_define_other _ _ _ _ h] at hl
+      exact s.wf d e hTd hl hf
+  · intro d e hTd hl
+    by_cases h : c = d
+    · subst h
+      rw [alookup_define_self] at hl
+      cases h1 : defEntry cfg w c src with
+      | none => rw [h1] at hl; exact s.tcl c e hT hl
+      | some e1 =>
+        rw [h1] at hl
+        simp only [Option.some.injEq] at hl
+        subst hl
+        exact defEntry_refsIn h1 hd s.tcl
+    · rw [alookup_define_other _ _ _ _ h] at hl
+      exact s.tcl d e hTd hl
 
 theorem sim_define_left {cfg : Config} {W} (hW : cfg.wrapperByName = true → NoClashW W) {T : ClassId → Bool}
     {w w' : World} (s : Sim cfg T W w w') (c : ClassId) (src : ClassSrc) (hT : T c = false)
     (hsub : ∀ q ∈ wrapsOfFields src.fields, q ∈ W) :
     Sim cfg T W (defineW cfg w c src).1 w' := by
-  refine ⟨?_, ?_, good_define hW s.good c src hsub, s.good'⟩
+  have hne : ∀ d, T d = true → c ≠ d := by
+    intro d hTd hcd; subst hcd; rw [hT] at hTd; cases hTd
+  refine ⟨?_, ?_, good_define hW s.good c src hsub, s.good', ?_, ?_⟩
   · rw [defineW_flags]; exact s.flags
   · intro d hTd
-    have h : c ≠ d := by
-      intro hcd; subst hcd; rw [hT] at hTd; cases hTd
-    rw [lookS_define_other _ _ _ _ h]
+    rw [lookS_define_other _ _ _ _ (hne d hTd)]
     exact s.stab d hTd
+  · intro d e hTd hl
+    rw [alookup_define_other _ _ _ _ (hne d hTd)] at hl
+    exact s.wf d e hTd hl
+  · intro d e hTd hl
+    rw [alookup_define_other _ _ _ _ (hne d hTd)] at hl
+    exact s.tcl d e hTd hl
+
+/-- an entry of a world with the same stable part has the same core -/
+theorem core_of_lookS {w w2 : World} {d : ClassId} {e2 : Entry} (h : lookS w2 d = lookS w d)
+    (hl : alookup d w2.classes = some e2) : ∃ e, alookup d w.classes = some e ∧ e2.core = e.core := by
+  unfold lookS at h
+  rw [hl] at h
+  cases hl0 : alookup d w.classes with
+  | none => rw [hl0] at h; simp at h
+  | some e =>
+    rw [hl0] at h
+    simp only [Option.map_some, Option.some.injEq, Entry.stable, Prod.mk.injEq] at h
+    exact ⟨e, rfl, h.1⟩
+
+/-- replace the left world by one in which every class of `T` has the same stable part -/
+theorem sim_left {cfg : Config} {W} {T : ClassId → Bool} {w w2 w' : World} (s : Sim cfg T W w w')
+    (g2 : Good cfg W w2) (hfl : w2.flags = w.flags)
+    (hcore : ∀ d e2, T d = true → alookup d w2.classes = some e2 → ∃ e, alookup d w.classes = some e ∧ e2.core = e.core)
+    (hst : ∀ d, T d = true → lookS w2 d = lookS w' d) : Sim cfg T W w2 w' := by
+  refine ⟨hfl.trans s.flags, hst, g2, s.good', ?_, ?_⟩
+  · intro d e2 hTd hl hf
+    obtain ⟨e, hl0, hc⟩ := hcore d e2 hTd hl
+    have := s.wf d e hTd hl0 (by rw [← hc]; exact hf)
+    simpa [refsCreatable, hc] using this
+  · intro d e2 hTd hl
+    obtain ⟨e, hl0, hc⟩ := hcore d e2 hTd hl
+    rw [hc]
+    exact s.tcl d e hTd hl0
 
 theorem sim_pres_left {cfg : Config} {W} {T : ClassId → Bool} {w w2 w' : World} (s : Sim cfg T W w w')
     (p : Pres cfg W w w2) : Sim cfg T W w2 w' :=
-  ⟨p.2.2.trans s.flags, fun d hd => (p.2.1 d).trans (s.stab d hd), p.1, s.good'⟩
+  sim_left s p.1 p.2.2 (fun d _ _ hl => core_of_lookS (p.2.1 d) hl) (fun d hd => (p.2.1 d).trans (s.stab d hd))
 
 theorem good_setFlags {cfg : Config} {W} {w : World} (g : Good cfg W w) (fl : Flags) :
     Good cfg W { w with flags := fl } := ⟨g.reg, g.mapper, g.simpl, g.ser⟩
@@ -794,18 +1346,62 @@ theorem wrapsOf_define_sub {c : ClassId} {src : ClassSrc} {h : List WorldOp} {W 
   simp only [wrapsOf, List.mem_append] at hs
   exact ⟨fun q hq => hs q (Or.inl hq), fun q hq => hs q (Or.inr hq)⟩
 
+/-- the stable part after an explicit `create_serializer(c, fl)` that got through iff `ok` -/
+theorem created_core {cfg W} {w w2 : World} {c : ClassId} {fl : SerFlags} {ok : Bool}
+    (h : Created cfg W w w2 c fl ok) (d : ClassId) (e2 : Entry) (hl : alookup d w2.classes = some e2) :
+    ∃ e, alookup d w.classes = some e ∧ e2.core = e.core := by
+  by_cases hd : c = d
+  · subst hd
+    have hs := h.self
+    unfold lookS at hs
+    rw [hl] at hs
+    cases hl0 : alookup c w.classes with
+    | none => rw [hl0] at hs; simp at hs
+    | some e =>
+      rw [hl0] at hs
+      simp only [Option.map_some, Option.some.injEq, Entry.stable, Prod.mk.injEq] at hs
+      exact ⟨e, rfl, hs.1⟩
+  · exact core_of_lookS (h.other d hd) hl
+
+/-- the configuration invariant: a class of `T` that is not in `K` serializes with the default flags -/
+def Unconfigured (T : ClassId → Bool) (K : List ClassId) (w : World) : Prop :=
+  ∀ d e, T d = true → K.contains d = false → alookup d w.classes = some e → e.effFlags = SerFlags.plain
+
+theorem unconfigured_of_lookS {T : ClassId → Bool} {K : List ClassId} {w w2 : World}
+    (h : Unconfigured T K w) (hst : ∀ d, T d = true → K.contains d = false → lookS w2 d = lookS w d) :
+    Unconfigured T K w2 := by
+  intro d e2 hTd hK hl
+  have := hst d hTd hK
+  unfold lookS at this
+  rw [hl] at this
+  cases hl0 : alookup d w.classes with
+  | none => rw [hl0] at this; simp at this
+  | some e =>
+    rw [hl0] at this
+    simp only [Option.map_some, Option.some.injEq, Entry.stable, Prod.mk.injEq] at this
+    rw [this.2.2]
+    exact h d e hTd hK hl0
+
 /-- main simulation: running a quiet history and running the definitions of a dependency-closed set of
-    classes (plus the toggles of global defaults) agree on every class of the set -/
+    classes (plus the toggles of global defaults and the serializer configurations of these classes) agree on
+    every class of the set -/
 theorem sim_run {cfg : Config} (hc : cfg.cachesById = true) {W : List (String × TypeId)}
     (hW : cfg.wrapperByName = true → NoClashW W) (T : ClassId → Bool) :
-    ∀ (h : List WorldOp) (w w' : World), (∀ q ∈ wrapsOf h, q ∈ W) → closed T h = true →
-      quietRun cfg w h = true → Sim cfg T W w w' →
-      Sim cfg T W (runW cfg w h) (runW cfg w' (slice T h))
-  | [], _, _, _, _, _, s => s
-  | op :: h, w, w', hsub, hcl, hq, s => by
+    ∀ (h : List WorldOp) (K : List ClassId) (w w' : World), (∀ q ∈ wrapsOf h, q ∈ W) → closed T h = true →
+      quietRun cfg w h = true → Sim cfg T W w w' → Unconfigured T K w →
+      Sim cfg T W (runW cfg w h) (runW cfg w' (sliceK T K h))
+  | [], _, _, _, _, _, _, s, _ => s
+  | op :: h, K, w, w', hsub, hcl, hq, s, hK => by
     simp only [closed, List.all_cons, Bool.and_eq_true] at hcl
     simp only [quietRun, Bool.and_eq_true] at hq
     have hcl' : closed T h = true := hcl.2
+    have use_case : ∀ (op : WorldOp), plainUse op = true → quietStep cfg w op = true →
+        quietRun cfg (stepW cfg w op).1 h = true → (∀ q ∈ wrapsOf h, q ∈ W) →
+        Sim cfg T W (runW cfg (stepW cfg w op).1 h) (runW cfg w' (sliceK T K h)) := by
+      intro op hu hq1 hq2 hs2
+      have p := pres_step_use hc s.good op hu hq1
+      exact sim_run hc hW T h K _ _ hs2 hcl' hq2 (sim_pres_left s p)
+        (unconfigured_of_lookS hK (fun d _ _ => p.2.1 d))
     cases op with
     | define c src =>
       obtain ⟨hs1, hs2⟩ := wrapsOf_define_sub hsub
@@ -815,59 +1411,144 @@ theorem sim_run {cfg : Config} (hc : cfg.cachesById = true) {W : List (String ×
           have := hcl.1
           simp only [closedOp, hT, Bool.not_true, Bool.false_or] at this
           exact this
-        have hsl : slice T (.define c src :: h) = .define c src :: slice T h := by
-          simp [slice, List.filter_cons, keepOp, hT]
+        have hsl : sliceK T K (.define c src :: h) = .define c src :: sliceK T K h := by
+          simp [sliceK, keepOp, hT]
         rw [hsl]
         simp only [runW, stepW]
-        exact sim_run hc hW T h _ _ hs2 hcl' hq.2 (sim_define_both hW s c src hT hd hs1)
+        refine sim_run hc hW T h K _ _ hs2 hcl' hq.2 (sim_define_both hW s c src hT hd hs1 hq.1) ?_
+        intro d e hTd hKd hl
+        by_cases hcd : c = d
+        · subst hcd
+          rw [alookup_define_self] at hl
+          cases h1 : defEntry cfg w c src with
+          | none => rw [h1] at hl; exact hK c e hTd hKd hl
+          | some e1 =>
+            rw [h1] at hl
+            simp only [Option.some.injEq] at hl
+            subst hl
+            simp [Entry.effFlags, (defEntry_fresh h1).2]
+        · rw [alookup_define_other _ _ _ _ hcd] at hl
+          exact hK d e hTd hKd hl
       | false =>
-        have hsl : slice T (.define c src :: h) = slice T h := by
-          simp [slice, List.filter_cons, keepOp, hT]
+        have hsl : sliceK T K (.define c src :: h) = sliceK T K h := by
+          simp [sliceK, keepOp, hT]
         rw [hsl]
         simp only [runW, stepW]
-        exact sim_run hc hW T h _ _ hs2 hcl' hq.2 (sim_define_left hW s c src hT hs1)
+        refine sim_run hc hW T h K _ _ hs2 hcl' hq.2 (sim_define_left hW s c src hT hs1) ?_
+        intro d e hTd hKd hl
+        have hcd : c ≠ d := by intro hcd; subst hcd; rw [hT] at hTd; cases hTd
+        rw [alookup_define_other _ _ _ _ hcd] at hl
+        exact hK d e hTd hKd hl
     | setDefault f b =>
-      have hsl : slice T (.setDefault f b :: h) = .setDefault f b :: slice T h := by
-        simp [slice, List.filter_cons, keepOp]
+      have hsl : sliceK T K (.setDefault f b :: h) = .setDefault f b :: sliceK T K h := by
+        simp [sliceK, keepOp]
       rw [hsl]
       simp only [runW, stepW]
-      refine sim_run hc hW T h _ _ (by simpa [wrapsOf] using hsub) hcl' hq.2 ?_
-      exact ⟨by simp [s.flags], s.stab, good_setFlags s.good _, good_setFlags s.good' _⟩
+      refine sim_run hc hW T h K _ _ (by simpa [wrapsOf] using hsub) hcl' hq.2 ?_ ?_
+      · exact ⟨by simp [s.flags], s.stab, good_setFlags s.good _, good_setFlags s.good' _, s.wf, s.tcl⟩
+      · exact hK
     | construct c kw =>
-      have hsl : slice T (.construct c kw :: h) = slice T h := by simp [slice, List.filter_cons, keepOp]
+      have hsl : sliceK T K (.construct c kw :: h) = sliceK T K h := by simp [sliceK, keepOp]
       rw [hsl]
       simp only [runW]
-      exact sim_run hc hW T h _ _ (by simpa [wrapsOf] using hsub) hcl' hq.2
-        (sim_pres_left s (pres_step_use hc s.good _ rfl hq.1))
+      exact use_case _ rfl hq.1 hq.2 (by simpa [wrapsOf] using hsub)
     | deserialize c kw =>
-      have hsl : slice T (.deserialize c kw :: h) = slice T h := by simp [slice, List.filter_cons, keepOp]
+      have hsl : sliceK T K (.deserialize c kw :: h) = sliceK T K h := by simp [sliceK, keepOp]
       rw [hsl]
       simp only [runW]
-      exact sim_run hc hW T h _ _ (by simpa [wrapsOf] using hsub) hcl' hq.2
-        (sim_pres_left s (pres_step_use hc s.good _ rfl hq.1))
+      exact use_case _ rfl hq.1 hq.2 (by simpa [wrapsOf] using hsub)
     | trustedDeserialize c kw =>
-      have hsl : slice T (.trustedDeserialize c kw :: h) = slice T h := by simp [slice, List.filter_cons, keepOp]
+      have hsl : sliceK T K (.trustedDeserialize c kw :: h) = sliceK T K h := by simp [sliceK, keepOp]
       rw [hsl]
       simp only [runW]
-      exact sim_run hc hW T h _ _ (by simpa [wrapsOf] using hsub) hcl' hq.2
-        (sim_pres_left s (pres_step_use hc s.good _ rfl hq.1))
+      exact use_case _ rfl hq.1 hq.2 (by simpa [wrapsOf] using hsub)
     | serialize c kw camel =>
-      have hsl : slice T (.serialize c kw camel :: h) = slice T h := by simp [slice, List.filter_cons, keepOp]
+      have hsl : sliceK T K (.serialize c kw camel :: h) = sliceK T K h := by simp [sliceK, keepOp]
       rw [hsl]
       simp only [runW]
-      exact sim_run hc hW T h _ _ (by simpa [wrapsOf] using hsub) hcl' hq.2
-        (sim_pres_left s (pres_step_use hc s.good _ rfl hq.1))
-    | createSerializer c =>
-      have hsl : slice T (.createSerializer c :: h) = slice T h := by simp [slice, List.filter_cons, keepOp]
-      rw [hsl]
-      simp only [runW]
-      exact sim_run hc hW T h _ _ (by simpa [wrapsOf] using hsub) hcl' hq.2
-        (sim_pres_left s (pres_step_use hc s.good _ rfl hq.1))
+      exact use_case _ rfl hq.1 hq.2 (by simpa [wrapsOf] using hsub)
     | toSchema c =>
-      have hsl : slice T (.toSchema c :: h) = slice T h := by simp [slice, List.filter_cons, keepOp]
+      have hsl : sliceK T K (.toSchema c :: h) = sliceK T K h := by simp [sliceK, keepOp]
       rw [hsl]
       simp only [runW]
-      exact sim_run hc hW T h _ _ (by simpa [wrapsOf] using hsub) hcl' hq.2
-        (sim_pres_left s (pres_step_use hc s.good _ rfl hq.1))
+      exact use_case _ rfl hq.1 hq.2 (by simpa [wrapsOf] using hsub)
+    | createSerializer c fl =>
+      have hs2 : ∀ q ∈ wrapsOf h, q ∈ W := by simpa [wrapsOf] using hsub
+      have cl := created_step hc s.good c fl
+      by_cases hkeep : (T c && (fl != SerFlags.plain || K.contains c)) = true
+      · -- kept: both sides configure `c`
+        have hsl : sliceK T K (.createSerializer c fl :: h) = .createSerializer c fl :: sliceK T (c :: K) h := by
+          simp only [sliceK, hkeep, if_true]
+        rw [hsl]
+        simp only [runW]
+        have hTc : T c = true := by
+          simp only [Bool.and_eq_true] at hkeep; exact hkeep.1
+        have cr := created_step hc s.good' c fl
+        -- both sides get through or not together
+        have hok : ((alookup c w.classes).isSome && (createW cfg (w.classes.length + 1) w c fl).2)
+            = ((alookup c w'.classes).isSome && (createW cfg (w'.classes.length + 1) w' c fl).2) := by
+          rcases lookS_cases (s.stab c hTc) with ⟨h1, h2⟩ | ⟨e, e', h1, h2, h3⟩
+          · simp [h1, h2]
+          · have hq1 := hq.1
+            unfold quietStep at hq1
+            simp only [h1] at hq1
+            have hcore := (stable_eq h3).1
+            have hq1' : refsCreatable e' = true := by simpa [refsCreatable, hcore] using hq1
+            rw [h1, h2, createW_snd _ fl h1 hq1, createW_snd _ fl h2 hq1']
+            simp [fastAble, hcore]
+        refine sim_run hc hW T h (c :: K) _ _ hs2 hcl' hq.2 ?_ ?_
+        · refine ⟨cl.flags.trans (s.flags.trans cr.flags.symm), ?_, cl.good, cr.good, ?_, ?_⟩
+          · intro d hTd
+            by_cases hcd : c = d
+            · subst hcd
+              rw [cl.self, cr.self, s.stab c hTd, hok]
+            · rw [cl.other d hcd, cr.other d hcd]
+              exact s.stab d hTd
+          · intro d e2 hTd hl hf
+            obtain ⟨e, hl0, hcr⟩ := created_core cl d e2 hl
+            have := s.wf d e hTd hl0 (by rw [← hcr]; exact hf)
+            simpa [refsCreatable, hcr] using this
+          · intro d e2 hTd hl
+            obtain ⟨e, hl0, hcr⟩ := created_core cl d e2 hl
+            rw [hcr]
+            exact s.tcl d e hTd hl0
+        · refine unconfigured_of_lookS (K := c :: K) (w := w) ?_ ?_
+          · intro d e hTd hKd hl
+            have : K.contains d = false := by
+              simp only [List.contains_cons, Bool.or_eq_false_iff] at hKd
+              exact hKd.2
+            exact hK d e hTd this hl
+          · intro d hTd hKd
+            have hcd : c ≠ d := by
+              intro hcd
+              subst hcd
+              simp [List.contains_cons] at hKd
+            exact cl.other d hcd
+      · -- dropped: only the full history runs it
+        have hsl : sliceK T K (.createSerializer c fl :: h) = sliceK T K h := by
+          simp only [sliceK, hkeep, Bool.false_eq_true, if_false]
+        rw [hsl]
+        simp only [runW]
+        have hsame : ∀ d, T d = true → lookS (stepW cfg w (.createSerializer c fl)).1 d = lookS w d := by
+          intro d hTd
+          by_cases hcd : c = d
+          · subst hcd
+            rw [cl.self]
+            simp only [hTd, Bool.true_and, Bool.or_eq_true, bne_iff_ne, ne_eq, not_or, Decidable.not_not,
+              Bool.not_eq_true] at hkeep
+            unfold lookS
+            cases hl : alookup c w.classes with
+            | none => rfl
+            | some e =>
+              have := hK c e hTd hkeep.2 hl
+              simp only [Option.map_some, Entry.stable, Option.some.injEq, Prod.mk.injEq, true_and]
+              split
+              · rw [this, hkeep.1]
+              · rfl
+          · exact cl.other d hcd
+        refine sim_run hc hW T h K _ _ hs2 hcl' hq.2 ?_ ?_
+        · exact sim_left s cl.good cl.flags (fun d e2 _ hl => created_core cl d e2 hl)
+            (fun d hTd => (hsame d hTd).trans (s.stab d hTd))
+        · exact unconfigured_of_lookS hK (fun d hTd _ => hsame d hTd)
 
 end Typedpy.World
